@@ -105,10 +105,11 @@ func notEnoughShards(w *World, s Snapshot, id int) bool {
 func convergedNow(w *World, s Snapshot) (bool, string) {
 	for _, id := range w.Discovered() {
 		_, _, health := w.Estimate(id)
-		n, it := 0, false
-		for _, m := range s.Shards {
+		n, it, holder := 0, false, -1
+		for si, m := range s.Shards {
 			if e, ok := m[id]; ok {
 				n++
+				holder = si
 				if e.State != "" {
 					it = true
 				}
@@ -133,6 +134,10 @@ func convergedNow(w *World, s Snapshot) (bool, string) {
 			}
 			if n > 1 {
 				return false, fmt.Sprintf("target %d is listed by %d shards", id, n)
+			}
+			// "scraped by exactly one shard": the shard that lists it must have handed it to its Prometheus
+			if !w.PromHas(holder, id) {
+				return false, fmt.Sprintf("target %d is listed by shard %d, whose Prometheus was never given it (assigned but not scraped)", id, holder)
 			}
 		default:
 			if n > 1 {
